@@ -499,6 +499,74 @@ func (c *c10ctx) ruleR2() {
 						}
 					}
 				}
+				// `if done := handle(ds, block, ok); done { return }`: a helper is handed ok; what it
+				// returns when ok is false (constant propagation with that assumption) decides the arm
+				for _, ref := range *okv.Referrers() {
+					call, isCall := ref.(*ssa.Call)
+					if !isCall {
+						continue
+					}
+					h := call.Call.StaticCallee()
+					if !isModuleFn(h) || call.Call.IsInvoke() || len(h.Params) != len(call.Call.Args) {
+						continue
+					}
+					env := map[ssa.Value]lat{}
+					for i, a := range call.Call.Args {
+						if a == okv {
+							env[h.Params[i]] = latBool(false)
+						}
+					}
+					res := sccp(h, env)
+					nres := h.Signature.Results().Len()
+					for ri := 0; ri < nres; ri++ {
+						val, known := lat{}, true
+						first := true
+						Instrs(h, func(x ssa.Instruction) {
+							ret, isRet := x.(*ssa.Return)
+							if !isRet || !res.Executable(x) {
+								return
+							}
+							l := res.Get(ret.Results[ri])
+							if !l.isConst() || l.c == nil || l.c.Kind() != constant.Bool {
+								known = false
+								return
+							}
+							if first {
+								val, first = l, false
+							} else if !val.equal(l) {
+								known = false
+							}
+						})
+						if !known || first {
+							continue
+						}
+						var rv ssa.Value = call
+						if nres > 1 {
+							rv = nil
+							for _, r2 := range *call.Referrers() {
+								if e, isE := r2.(*ssa.Extract); isE && e.Index == ri {
+									rv = e
+								}
+							}
+						}
+						if rv == nil {
+							continue
+						}
+						whenClosed := constant.BoolVal(val.c)
+						for _, r2 := range *rv.Referrers() {
+							if iff, isIf := r2.(*ssa.If); isIf {
+								closedArms = append(closedArms, iff.Block().Succs[map[bool]int{true: 0, false: 1}[whenClosed]])
+							}
+							if not, isNot := r2.(*ssa.UnOp); isNot && not.Op == token.NOT {
+								for _, r3 := range *not.Referrers() {
+									if iff, isIf := r3.(*ssa.If); isIf {
+										closedArms = append(closedArms, iff.Block().Succs[map[bool]int{true: 1, false: 0}[whenClosed]])
+									}
+								}
+							}
+						}
+					}
+				}
 				for _, ca := range closedArms {
 					// the closed case must reach a return without passing the select again
 					hits := reachFromBlock(ca, func(x ssa.Instruction) bool { return x == ssa.Instruction(sel) }, isReturn)
